@@ -246,6 +246,8 @@ def plans(tier, seed):
                 ({"pset": 0, "d": 1, "optsets": option_sets("singles"), "cs_sym": ["SX"], "bases": (0,)}, a0),
                 ({"pset": 0, "d": 0, "optsets": option_sets("pairs"), "cs_sym": ["SX"]}, a0),
                 ({"pset": 0, "d": 0, "optsets": option_sets("singles"), "cs_sym": ["MX"]}, a0),
+                ({"pset": 0, "d": 0, "optsets": option_sets("singles"), "cs_sym": ["SX", "MX"]},
+                 [(f"harness:{k}", s) for k, s in harness_specs(pal).items()]),
                 ({"pset": 0, "d": 0, "optsets": [], "cs_sym": [], "hist": True, "hist_sym": ["SX", "MX"]},
                  [(f"harness:{k}", s) for k, s in harness_specs(pal).items()])]
         bounds = {"shapes": "(n,m)<=(3,3): c<=1 with all six options and two single options on the special vectors; base+uniform "
